@@ -10,3 +10,7 @@ Definition isize_as_usize (i : Z) : nat :=
 (* Vec::drain(lo..hi) as a statement: panics when lo > hi or hi > len, otherwise removes the range *)
 Definition drain {X} (l : list X) (lo hi : nat) : res (list X) :=
   if (lo <=? hi) && (hi <=? length l) then Ok (firstn lo l ++ skipn hi l) else Panic Index.
+
+(* Option::unwrap / Result::unwrap *)
+Definition unwrap_opt {X} (o : option X) : res X :=
+  match o with Some x => Ok x | None => Panic Unwrap end.
